@@ -19,8 +19,8 @@ identifiers, no keyword as first operand of rol/ror):
   — the only place where the two modules differ.
 
 The step from characters to tokens (`tokenize (printModule fmt m) = toksModule fmt m`) is a hypothesis of
-`roundtrip_partial`; it is *evaluated* for every module of every run (driver op `toks`), and proved here
-for the lexical classes (`lex_*` in Proofs — see notes/C15.md for what is covered).
+`roundtrip_partial`; it is NOT proved for all modules: it is *evaluated* by the Lean tokenizer for every
+module of every run (driver op `toks`; a module of the fragment for which it fails is reported).
 
 `roundtrip_full` (all well-formed modules) is NOT proved and is false: five counterexamples below, each
 replayed on ppci by harness/c15.py (open findings irtext:*).
